@@ -8,13 +8,17 @@ import glob, json, os, re, shutil, subprocess, sys
 VERIF = os.path.dirname(os.path.dirname(os.path.abspath(__file__)))
 
 def main():
-    rd, rnd, props = sys.argv[1], int(sys.argv[2]), sys.argv[3:]
+    only = [int(a.split("=")[1]) for a in sys.argv if a.startswith("--only=")]
+    args = [a for a in sys.argv[1:] if not a.startswith("--")]
+    rd, rnd, props = args[0], int(args[1]), args[2:]
     for p in props:
         out = os.path.join(rd, p, "out")
         nums = sorted(int(re.search(r"change(\d+)\.diff$", f).group(1)) for f in glob.glob(os.path.join(out, "change*.diff")))
         have = [int(os.path.basename(d).split("-")[1]) for d in glob.glob(os.path.join(VERIF, "seeded", p + "-*"))]
         k = max(have + [0])
         for n in nums:
+            if only and n not in only:
+                continue
             patch = os.path.join(out, "change%d.diff" % n); demo = os.path.join(out, "change%d_demo_test.go.txt" % n)
             notes = os.path.join(out, "change%d.md" % n)
             if not os.path.exists(demo):
